@@ -1275,7 +1275,7 @@ func run(env *ev.Env, c Case) (o ev.Outcome) {
 
 	decodable := 0
 	knownSrc := 0
-	// onlySource: the tampered entry is a LOG entry that differs from the
+	// onlySource: the tampered entry is a LOG entry of format version <= 3 that differs from the
 	// signed one in nothing but Resource.SourceBucket / Resource.SourceKey (KF-C27-1).
 	check := func(t tamper, what string, field string, onlySource bool) bool {
 		lc.counter++
@@ -1342,7 +1342,7 @@ func run(env *ev.Env, c Case) (o ev.Outcome) {
 			isSrc := m.field == "source_bucket" || m.field == "source_key"
 			chainField := m.field == "previous_hash" || m.field == "signature" || m.field == "type" || m.field == "version"
 			for _, variant := range vs3 {
-				if isSrc && env.Known(matcherSource) && knownSrc >= srcBudget {
+				if isSrc && env.Known(matcherSource) && entries[i].Version <= 3 && knownSrc >= srcBudget {
 					o.Count("skipped_behind_KF-C27-1", 1)
 					continue
 				}
@@ -1357,7 +1357,7 @@ func run(env *ev.Env, c Case) (o ev.Outcome) {
 					relinked[variant+m.field] = true
 				}
 				what := fmt.Sprintf("entry %d (%s v%d) field %s %s, variant %s", i, entries[i].Type, entries[i].Version, m.field, m.kind, variant)
-				onlySource := entries[i].Type == auditlog.EntryTypeLog &&
+				onlySource := entries[i].Type == auditlog.EntryTypeLog && entries[i].Version <= 3 &&
 					diffEntry(entries[i], tampered, true) == "" && diffEntry(entries[i], tampered, false) != ""
 				if !check(t, what, m.field, onlySource) {
 					return
@@ -1669,7 +1669,7 @@ func FuzzC27(f *testing.F) {
 			if i >= len(seed) {
 				t.Fatalf("validator accepted %d entries; only %d were ever signed", i+1, len(seed))
 			}
-			src := ignoreSrc && seed[i].Version == 3
+			src := ignoreSrc && seed[i].Version <= 3
 			if d := diffEntry(seed[i], e, src); d != "" {
 				t.Fatalf("validator accepted entry %d which differs from the signed one: %s", i, d)
 			}
